@@ -192,7 +192,10 @@ func Normalize(dir, goarch string, tags []string) (map[string][]byte, []string) 
 			fmt.Fprintf(os.Stderr, "normalise: round %d\n", round)
 		}
 		n.classify()
-		changed := n.condHoistRound()
+		changed := n.methodValueClosureRound()
+		if !changed {
+			changed = n.condHoistRound()
+		}
 		if !changed {
 			changed = n.inlineRound()
 		}
@@ -213,6 +216,9 @@ func Normalize(dir, goarch string, tags []string) (map[string][]byte, []string) 
 		}
 		if !changed {
 			changed = n.deleteRound()
+		}
+		if !changed {
+			changed = n.zeroDeclRound()
 		}
 		if !changed {
 			changed = n.sroaRound()
@@ -316,6 +322,7 @@ func (n *normalizer) classify() {
 			present[funcKeyOf(fn)] = true
 		}
 	}
+	var valueUsed map[*types.Func]bool
 	for fn, fd := range n.decls {
 		key := funcKeyOf(fn)
 		if _, known := headFuncs[key]; known || fn.Exported() || fn.Name() == "init" || fn.Name() == "_" {
@@ -343,6 +350,12 @@ func (n *normalizer) classify() {
 			continue
 		}
 		n.newFns[fn] = true
+		if valueUsed == nil {
+			valueUsed = n.funcValueUses()
+		}
+		if valueUsed[fn] {
+			continue // its value is taken (a method value handed out as a retry handle, a callback): a unit of its own, not a helper
+		}
 		if n.inlinable(fn, fd) {
 			n.helpers[fn] = true
 		}
@@ -3251,4 +3264,62 @@ func splitCompare(th *threadSpec, ret *ast.ReturnStmt) ast.Stmt {
 		thenB, elseB = block(assign(val), whole.Else), block(assign(!val), whole.Body)
 	}
 	return &ast.IfStmt{Cond: &ast.BinaryExpr{X: be.X, Op: be.Op, Y: be.Y}, Body: thenB, Else: elseB}
+}
+
+// funcValueUses: the package's functions and methods whose value is taken somewhere (f or x.m outside call position),
+// not counting the entries of package-level function tables (those are expanded into direct calls by tableRound).
+func (n *normalizer) funcValueUses() map[*types.Func]bool {
+	out := map[*types.Func]bool{}
+	for _, f := range n.pp.Syntax {
+		var stack []ast.Node
+		ast.Inspect(f, func(x ast.Node) bool {
+			if x == nil {
+				stack = stack[:len(stack)-1]
+				return true
+			}
+			stack = append(stack, x)
+			id, ok := x.(*ast.Ident)
+			if !ok {
+				return true
+			}
+			fn, ok := n.info.Uses[id].(*types.Func)
+			if !ok || fn.Pkg() != n.pp.Types {
+				return true
+			}
+			// the expression denoting the function: id, or sel with id as Sel
+			var expr ast.Expr = id
+			i := len(stack) - 2
+			if i >= 0 {
+				if sel, isSel := stack[i].(*ast.SelectorExpr); isSel && sel.Sel == id {
+					expr = sel
+					i--
+				}
+			}
+			for i >= 0 {
+				if p, isParen := stack[i].(*ast.ParenExpr); isParen {
+					expr = p
+					i--
+					continue
+				}
+				break
+			}
+			if i >= 0 {
+				if call, isCall := stack[i].(*ast.CallExpr); isCall && call.Fun == expr {
+					return true
+				}
+			}
+			// inside the literal of a package-level variable (a function table)?
+			inTable := false
+			for j := range stack {
+				if gd, isGD := stack[j].(*ast.GenDecl); isGD && gd.Tok == token.VAR && j == 1 {
+					inTable = true
+				}
+			}
+			if !inTable {
+				out[fn] = true
+			}
+			return true
+		})
+	}
+	return out
 }
